@@ -48,7 +48,13 @@ impl Interpreter {
                 self.state.stack = next_stack;
                 self.state.executed_opcodes.push(*code);
 
-                if predicate {
+                // OP_NOTIF runs its first branch when the condition is false
+                let run_first_branch = match code {
+                    OpCodes::OP_NOTIF => !predicate,
+                    _ => predicate,
+                };
+
+                if run_first_branch {
                     let _removed: Vec<ScriptBit> = self.script_bits.splice(self.script_index + 1..self.script_index + 1, pass.clone()).collect();
                     // println!("Removed items: {:?}", removed);
                 } else {
